@@ -152,11 +152,87 @@ def deep_forms(ctx):
         check_output(ctx, o, f, "deep", f"deep|{depth}")
 
 
+ROW_TYPES = ["text", "integer", "decimal", "note", "date", "select_one l1", "select_multiple l1", "rank l1", "range", "image", "audio", "geopoint", "geotrace", "barcode", "acknowledge",
+             "begin group", "begin repeat"]
+
+
+def control_override_forms(ctx):
+    """Columns that would replace the generated ref / nodeset of a control or bind (body::ref, control::ref, body:ref, body::nodeset, bind::nodeset, bind::ref), on every kind
+    of row: whatever the converter does with them (it refuses them), no control or bind may end up pointing anywhere but at its own node."""
+    k = 0
+    for col in ("body::ref", "control::ref", "body::nodeset", "bind::nodeset", "bind::ref"):
+        for val in ("/data/other", "/data/nowhere"):
+            for rt in ROW_TYPES:
+                k += 1
+                if not ctx.mine(k):
+                    continue
+                f = Form()
+                cells = {"label": "own", col: val}
+                if rt.startswith("begin"):
+                    kind = rt.split()[1]
+                    own = Row(kind, rt, "own", cells, [Row("q", "text", "inner", {"label": "in"})])
+                else:
+                    own = Row("q", rt, "own", cells)
+                f.survey = [Row("q", "text", "other", {"label": "O"}), own]
+                f.choices = {"l1": [{"name": "a", "label": "A"}, {"name": "b", "label": "B"}]}
+                o = drive.convert_form(f)
+                ctx.ctr("control_override_cases")
+                if not o.ok:
+                    ctx.ctr("rejected:control-override")
+                    ctx.case(sig=f"override|{col}|{rt}|rejected")
+                    if not o.exc_is_pyxform:
+                        ctx.viol(f"override:{col}:internal-exception:{o.exc_type}", f"{col}={val} on a {rt} row: {o.brief()[:200]}", common.witness(f, klass="override"))
+                    continue
+                check_output(ctx, o, f, "override", f"override|{col}|{rt}")
+                try:
+                    p = xf.Parsed(o.xform)
+                except xf.XFError:
+                    continue
+                want = "/data/own"
+                refs = [el.get("ref") or el.get("nodeset") for el in p.body.iter() if isinstance(el.tag, str) and (el.get("ref") or el.get("nodeset"))]
+                if want not in refs:
+                    ctx.viol(f"override:{col.split(':')[0]}:own-node-has-no-control", f"{col}={val} on a {rt} row: no body element points at {want} (refs: {refs[:6]})", common.witness(f, klass="override"))
+
+
+def debug_logging_forms(ctx):
+    """The same conversions with the library's loggers switched to DEBUG by the embedding application (logging.basicConfig(level=DEBUG)): logging is an observer."""
+    import io
+    import logging
+    lg = logging.getLogger("pyxform")
+    old_level, old_prop = lg.level, lg.propagate
+    h = logging.StreamHandler(io.StringIO())
+    lg.addHandler(h)
+    lg.setLevel(logging.DEBUG)
+    lg.propagate = False
+    children = [logging.getLogger(n) for n in list(logging.root.manager.loggerDict) if n.startswith("pyxform.")]
+    saved = [(c, c.level) for c in children]
+    for c in children:
+        c.setLevel(logging.DEBUG)
+    try:
+        for i in range(24 if ctx.tier == "quick" else 200):
+            if not ctx.mine(i):
+                continue
+            rng = ctx.rng("debuglog", i)
+            form = special_form(rng, i) if i % 2 else gen.gen_form(rng, common.rich_cfg(rng, max_depth=4))
+            o = drive.convert_form(form)
+            ctx.ctr("debug_logging_conversions")
+            if o.ok:
+                check_output(ctx, o, form, "debug-logging", f"debuglog|{common.feature_sig(form)}")
+    finally:
+        lg.removeHandler(h)
+        lg.setLevel(old_level)
+        lg.propagate = old_prop
+        for c, lv in saved:
+            c.setLevel(lv)
+
+
 def run_shard(ctx):
     from ..hooks import install_xpath_contract, counters
     install_xpath_contract()
     pl = plan(ctx.tier, ctx.seed)
     deep_forms(ctx)
+    control_override_forms(ctx)
+    debug_logging_forms(ctx)
     for i in range(pl["n"]):
         if not ctx.mine(i):
             continue
